@@ -36,6 +36,7 @@ const TOK31: &[&str] = &[
 
 const STALL_SECS: u64 = 15; // a worker that writes nothing for this long is killed, its input is *suspected*
 const ALONE_SECS: u64 = 60; // budget of the solitary re-run; only a second timeout is recorded as `timeout`
+const MAX_TIMEOUTS: usize = 8; // after this many recorded timeouts in one universe the recorder gives up: the rest is recorded as `notrun`
 const MAX_DEPTH: usize = 40; // nesting bound of generated/mutated inputs
 const MEM_LIMIT: u64 = 6 << 30; // address-space limit of a worker (a runaway allocation becomes an abort, not an OOM kill of the box)
 
@@ -101,6 +102,20 @@ struct Case {
     no_std: bool,
     #[serde(default)]
     corpus: bool,
+}
+
+/// SyltPipeline!FamText: every file under a header line, the main file first, the others by name
+fn fam_text(c: &Case) -> String {
+    let mut names: Vec<&String> = c.files.keys().collect();
+    names.sort_by_key(|n| (**n != c.main, (*n).clone()));
+    let mut s = String::new();
+    for n in names {
+        s.push_str("## ");
+        s.push_str(n);
+        s.push('\n');
+        s.push_str(&c.files[n]);
+    }
+    s
 }
 
 fn ascii(s: &str) -> String {
@@ -285,7 +300,9 @@ impl Source {
             }
             Source::Cases(v) => {
                 let c = &v[i - 1];
-                json!({"id": c.id, "u": "cases", "idx": i, "input": "", "kind": c.kind})
+                // TLA+-defined families (SyltPipeline!FamCase): the whole text goes to TLC, which re-derives it from the index
+                let input = if c.kind.starts_with("fam:") { fam_text(c) } else { String::new() };
+                json!({"id": c.id, "u": "cases", "idx": i, "input": input, "kind": c.kind, "nostd": c.no_std})
             }
         }
     }
@@ -379,6 +396,7 @@ struct RunStats {
     timeouts: usize,
     aborts: usize,
     batches: usize,
+    notrun: usize,
 }
 
 fn spawn_worker(universe: &str, cases: &str, from: usize, to: usize, out: &Path) -> std::process::Child {
@@ -430,10 +448,23 @@ fn run_isolated(universe: &str, cases: &str, first: usize, last: usize, scratch:
     }
     let nslots = vharness::pool::threads().max(1);
     let mut slots: Vec<Option<Slot>> = (0..nslots).map(|_| None).collect();
-    let mut stats = RunStats { suspected: 0, timeouts: 0, aborts: 0, batches: 0 };
+    let mut stats = RunStats { suspected: 0, timeouts: 0, aborts: 0, batches: 0, notrun: 0 };
     let _ = std::fs::create_dir_all(scratch);
     let mut serial = 0usize;
     loop {
+        if stats.timeouts >= MAX_TIMEOUTS {
+            // circuit breaker: the verdict is a violation already; do not spend 75 s on each of possibly hundreds of further hangs
+            queue.clear();
+            for s in slots.iter_mut() {
+                if let Some(slot) = s.as_mut() {
+                    let _ = slot.child.kill();
+                    let _ = slot.child.wait();
+                    let _ = std::fs::remove_file(&slot.out);
+                }
+                *s = None;
+            }
+            break;
+        }
         let mut busy = false;
         for s in 0..nslots {
             if slots[s].is_none() {
@@ -516,11 +547,19 @@ fn run_isolated(universe: &str, cases: &str, first: usize, last: usize, scratch:
         }
         std::thread::sleep(Duration::from_millis(15));
     }
-    let recs: Vec<Value> = results
-        .into_iter()
-        .enumerate()
-        .map(|(k, r)| r.unwrap_or_else(|| tool_error(&format!("no result for index {}", first + k))))
-        .collect();
+    let tripped = stats.timeouts >= MAX_TIMEOUTS;
+    let mut recs: Vec<Value> = Vec::with_capacity(n);
+    for (k, r) in results.into_iter().enumerate() {
+        match r {
+            Some(v) => recs.push(v),
+            None if tripped => {
+                stats.notrun += 1;
+                let why = format!("not run: the recorder gave up on this universe after {} timeouts", MAX_TIMEOUTS);
+                recs.push(finish_record(src.head(first + k), vec![ev("notrun", "-", 0, 0, "-")], &why, 0));
+            }
+            None => tool_error(&format!("no result for index {}", first + k)),
+        }
+    }
     (recs, stats)
 }
 
@@ -1522,6 +1561,71 @@ fn minimise(case_path: &str) {
     let _ = std::fs::remove_dir_all(&scratch);
 }
 
+/// debugging aid: compile one .sy file, a directory of .sy files (main.sy is the entry) or a case json; print what happened
+fn show(path: &str, std: bool) {
+    let p = Path::new(path);
+    if path.ends_with(".ndjson") {
+        // one line per case: id, outcome, kinds and first message lines of the errors
+        let cases: Vec<Case> = read_ndjson(p);
+        let h = std::thread::Builder::new()
+            .stack_size(512 << 20)
+            .spawn(move || {
+                for c in cases {
+                    let (res, _) = compile_opts(&project_of(&c, None), &CompileOpts { no_std: c.no_std, require: None });
+                    let what = match res {
+                        CompileResult::Ok { .. } => "OK".to_string(),
+                        CompileResult::Err { errors, .. } => errors
+                            .iter()
+                            .map(|e| format!("{}:{}:{}[{}]", e.kind, e.file, e.line, e.rendered.lines().filter(|l| !l.starts_with("Unable")).skip(1).take(2).map(|l| l.trim()).collect::<Vec<_>>().join(" / ")))
+                            .collect::<Vec<_>>()
+                            .join(" ; "),
+                        CompileResult::Panic { message, .. } => format!("PANIC {}", message),
+                    };
+                    println!("{}\t{}", c.id, what);
+                }
+            })
+            .unwrap();
+        let _ = h.join();
+        return;
+    }
+    let mut files = BTreeMap::new();
+    let mut no_std = !std;
+    let mut main = "main.sy".to_string();
+    if p.is_dir() {
+        let mut v = Vec::new();
+        walk(p, &mut v);
+        for f in v {
+            files.insert(f.strip_prefix(p).unwrap().to_string_lossy().to_string(), std::fs::read_to_string(&f).unwrap());
+        }
+    } else if path.ends_with(".json") {
+        let c: Case = serde_json::from_str(&std::fs::read_to_string(p).unwrap()).unwrap();
+        files = c.files;
+        no_std = c.no_std;
+        main = c.main;
+    } else {
+        files.insert("main.sy".to_string(), std::fs::read_to_string(p).unwrap());
+    }
+    let a = (files, main, no_std);
+    let h = std::thread::Builder::new()
+        .stack_size(512 << 20)
+        .spawn(move || {
+            let t0 = Instant::now();
+            let (res, _) = compile_opts(&Project { files: a.0, main: a.1 }, &CompileOpts { no_std: a.2, require: None });
+            match res {
+                CompileResult::Ok { lua } => println!("OK {} bytes, {} ms", lua.len(), t0.elapsed().as_millis()),
+                CompileResult::Err { errors, .. } => {
+                    println!("ERR {} errors, {} ms", errors.len(), t0.elapsed().as_millis());
+                    for e in errors {
+                        println!("--- {} {}:{}\n{}", e.kind, e.file, e.line, e.rendered);
+                    }
+                }
+                CompileResult::Panic { message, .. } => println!("PANIC {} ({} ms)", message, t0.elapsed().as_millis()),
+            }
+        })
+        .unwrap();
+    let _ = h.join();
+}
+
 fn write_outputs(outdir: &str, name: &str, recs: &[Value], cases: Option<&[Case]>, stats: &RunStats, t0: Instant) {
     let dir = PathBuf::from(outdir);
     write_ndjson(&dir.join(format!("{}.trace.ndjson", name)), recs);
@@ -1535,7 +1639,7 @@ fn write_outputs(outdir: &str, name: &str, recs: &[Value], cases: Option<&[Case]
     println!(
         "{}",
         json!({"records": recs.len(), "suspected": stats.suspected, "timeouts": stats.timeouts, "aborts": stats.aborts,
-               "batches": stats.batches, "classes": classes, "wall_ms": t0.elapsed().as_millis() as u64})
+               "notrun": stats.notrun, "batches": stats.batches, "classes": classes, "wall_ms": t0.elapsed().as_millis() as u64})
     );
 }
 
@@ -1557,6 +1661,7 @@ fn main() {
             }
         }
         ("minimise", p) => minimise(p),
+        ("show", p) => show(p, args.iter().any(|a| a == "--std")),
         ("run", u @ ("tok20.raw" | "tok20.top" | "tok20.body" | "tok31.raw" | "tok31.top" | "tok31.body")) => {
             let maxlen: usize = args[3].parse().unwrap();
             let total = num_token_strings(alphabet(u).len(), maxlen);
